@@ -29,6 +29,9 @@ type c05Hist struct {
 	saveErr error
 	styles  []int
 	dxfs    []int
+	// worksheets handed to a StreamWriter: "normal mode functions and stream mode functions
+	// can't be mixed" (NewStreamWriter doc), so normal-mode calls naming them are skipped
+	streamed map[string]bool
 }
 
 func c05Repo() string {
@@ -151,7 +154,7 @@ func c05Exec(h *c05Hist, line string) (res string) {
 	case "new":
 		h.c05Close()
 		h.f = xl.NewFile()
-		h.styles, h.dxfs = nil, nil
+		h.styles, h.dxfs, h.streamed = nil, nil, nil
 		return "ok"
 	case "open":
 		h.c05Close()
@@ -160,7 +163,7 @@ func c05Exec(h *c05Hist, line string) (res string) {
 			return "ERR"
 		}
 		h.f = f
-		h.styles, h.dxfs = nil, nil
+		h.styles, h.dxfs, h.streamed = nil, nil, nil
 		return "ok"
 	case "openbytes": // open a package given inline (hex of the zip) — used by fixture variants built in the harness
 		h.c05Close()
@@ -169,12 +172,39 @@ func c05Exec(h *c05Hist, line string) (res string) {
 			return "ERR"
 		}
 		h.f = f
+		h.styles, h.dxfs, h.streamed = nil, nil, nil
 		return "ok"
 	}
 	if h.f == nil {
 		return "skip"
 	}
 	f := h.f
+	if len(h.streamed) > 0 && !strings.HasPrefix(op, "stream.") && op != "delsheet" && op != "newsheet" {
+		hit := func(name string) bool { return h.streamed[strings.ToLower(name)] }
+		switch op {
+		case "copysheet":
+			if hit(f.GetSheetName(I(0))) || hit(f.GetSheetName(I(1))) {
+				return "skip"
+			}
+		case "pivot":
+			if hit(strings.SplitN(S(0), "!", 2)[0]) || hit(strings.SplitN(S(1), "!", 2)[0]) {
+				return "skip"
+			}
+		case "deltable", "delslicer":
+			// the owning worksheet is implicit: not exercised once a worksheet is streamed
+			return "skip"
+		case "save", "reopen", "close", "active", "ungroup", "group":
+		default:
+			if len(a) > 0 {
+				if b, err := hex.DecodeString(a[0]); err == nil && hit(string(b)) {
+					return "skip"
+				}
+			}
+			if op == "slicer" && hit(S(3)) {
+				return "skip"
+			}
+		}
+	}
 	switch op {
 	case "save":
 		if h.sw != nil {
@@ -199,7 +229,7 @@ func c05Exec(h *c05Hist, line string) (res string) {
 		}
 		h.c05Close()
 		h.f = nf
-		h.styles, h.dxfs = nil, nil
+		h.styles, h.dxfs, h.streamed = nil, nil, nil
 		return "ok"
 	case "close":
 		h.c05Close()
@@ -576,11 +606,21 @@ func c05Exec(h *c05Hist, line string) (res string) {
 		return E(err)
 	// ---- stream writer
 	case "stream.new":
+		// a StreamWriter must be flushed (documented contract): opening the next one ends the
+		// previous one, so that no history saves a workbook with an unterminated stream
+		if h.sw != nil {
+			_ = h.sw.Flush()
+			h.sw = nil
+		}
 		sw, err := f.NewStreamWriter(S(0))
 		if err != nil {
 			return "ERR"
 		}
 		h.sw, h.swRow = sw, 1
+		if h.streamed == nil {
+			h.streamed = map[string]bool{}
+		}
+		h.streamed[strings.ToLower(S(0))] = true
 		return "ok"
 	case "stream.row":
 		if h.sw == nil {
